@@ -30,6 +30,26 @@ CLAIMED = {
         'runtime fact decided by value comparison.',
    technique='Coq proof of the ring kernels + exact differential testing of the operator layer (Coq model and Fraction reference)',
    design='4/C02'),
+ 'C07': dict(
+   text='Theorems (every field, every D, sizes, closed under the global context): the matrix kernels are written once over abstract '
+        'operations; instantiated with mathcomp matrices they satisfy X(t)Y(t) Cauchy product, A(t) inv(A)(t) = I = inv(A)(t) A(t) (over any '
+        'ring) and A(t) X(t) = B(t) modulo t^D; the executable list-matrix instance refines the mathcomp instance (morphism lemmas and '
+        'transfer), so the same identities hold for the terms vm_compute runs. On every run: the implementation against the Coq model '
+        '(dot, inv, solve in three operand mixes, base inverses from NumPy as the implementation takes them) and exact-rational predicates on '
+        'the implementation output: numpy.dot/outer on exact series objects for every rank combination and operand mix, residuals of '
+        'A inv(A) = I and A X = B, Leibniz determinant, det * logdet\' = det\', trace; expm at orders 0 and 1 against SciPy.',
+   note=NOTE_COMMON + 'det/logdet/expm have no theorem (validated per case against exact predicates); closeness of the Pade approximant to expm is numerical analysis.',
+   technique='Coq proof over abstract rings + refinement of executable list matrices to mathcomp matrices + correspondence and exact residual predicates',
+   design='4/C07'),
+ 'C10': dict(
+   text='Theorems: for every model kernel the zeroth coefficient of the result is the base operation applied to the zeroth coefficients '
+        '(ring operation, or the base value handed in from NumPy/SciPy), and result shapes are NumPy broadcast shapes. NumPy itself is the '
+        'oracle for the base operations, so the larger half is an enumeration on every run: every registered operation against the '
+        'NumPy/SciPy call on x.data[0,p] in every direction, shape/ndim/size/len, the truth value of < <= > >= == against UTPM/scalar/'
+        'ndarray operands, and ~90 algopy-level functions called with plain arrays against NumPy/SciPy bit-wise.',
+   note=NOTE_COMMON + 'Claimed at level proof only for the modelled half (zeroth-coefficient and shape theorems); agreement with NumPy is enumeration, comparisons are not modelled in Coq.',
+   technique='Coq proof (zeroth-coefficient / shape lemmas) + enumeration against NumPy/SciPy as oracle',
+   design='4/C10'),
  'C11': dict(
    text='Theorems (every kernel, every P, all shapes): in the model a polynomial with P directions is a list of P independent blocks; '
         'restricting the operands of any element-wise function, broadcasting binary operation or shape manipulation to direction p and '
@@ -49,6 +69,17 @@ CLAIMED = {
    note=NOTE_COMMON + 'The reverse-sweep analogue and the eigh bookkeeping are covered by the direct predicate only once their operations are registered.',
    technique='Coq proof (prefix lemmas for the recursion combinators and every kernel) + direct predicate on the implementation + correspondence',
    design='4/C12'),
+ 'C13': dict(
+   text='Theorems (all shapes, index expressions, D, P): python slice.indices model selects in-range distinct indices; basic indexing '
+        '(ints, negative ints, slices with steps, Ellipsis, newaxis, tuples) yields duplicate-free in-range offsets (a view selects distinct '
+        'parent cells); applying an index map to a polynomial acts on every (d,p) coefficient slice identically; writing through a view '
+        'changes exactly the selected cells and reading back returns what was written; constant assignment sets order 0 and clears higher '
+        'orders; reshape never moves data; double transposition is the identity. On every run: offsets selected by x[ix] (read off from '
+        'self-describing data) against the Coq gather, exactly; slice.indices exhaustively on a small range; every operation against NumPy '
+        'applied to each coefficient slice; shares_memory and write-through against NumPy.',
+   note=NOTE_COMMON + 'numpy.shares_memory is a runtime fact; tile/diag/triu/tril/trace/symvec/vecsym/conj/real/imag/fft are decided by the slice-wise NumPy predicate only.',
+   technique='Coq proof (gather/scatter index maps) + exact correspondence of index maps + slice-wise NumPy predicate',
+   design='4/C13'),
  'C14': dict(
    text='Theorems (every field, every D): store-passing models of the product kernel with its output aliased to either or both operands, and '
         'of the in-place product x *= y, compute the Cauchy product; the repaired x *= x is correct whether or not the operands share '
@@ -67,6 +98,16 @@ CLAIMED = {
    note=NOTE_COMMON + 'Unbounded Gamma identity not proved (bounded N<=4,d<=5).',
    technique='Coq proof (induction; bounded reflection) + model/implementation correspondence by vm_compute',
    design='4/C15'),
+ 'C17': dict(
+   text='Theorems (all N, all shapes/values unless a bound is stated): applying the row interchanges of a pivot vector = indexing with '
+        'piv2swap; piv2swap is a permutation; piv2mat^T A is A after the interchanges; det(piv2mat piv) (mathcomp determinant) = piv2det piv; '
+        'symvec(vecsym v) = v and vecsym(symvec A) = A resp. (A+A^T)/2 for all three storage conventions; shift by s then -s preserves the '
+        'retained coefficients; base+directions <-> polynomial axis permutations are mutually inverse (bounded: rank<=3, extents<=3, D,P<=3, '
+        'by kernel reflection). On every run: every pivot vector for N<=4 (5 thorough) realised through scipy.linalg.lu_factor with '
+        'P L U = A and det checks, all helpers against the Coq model exactly, bit-wise round trips.',
+   note=NOTE_COMMON + 'LAPACK getrf contract trusted and checked per case; the axis-permutation round trip is a bounded theorem.',
+   technique='Coq proof (mathcomp permutations/determinant, list index arithmetic, bounded reflection) + exact correspondence',
+   design='4/C17'),
 }
 PENDING_REASON = 'check not built yet in this revision (see DESIGN.md section 4 for the plan); nothing is claimed for it'
 
